@@ -53,9 +53,16 @@ _CODECW_FAM = dict(name="codecw", quick=160, thorough=4000, search=800, shards=d
 def _iov(pid, title, theorems, modules, vtags, obs, text, partial="", codecw=False):
     fam = dict(_IOV_FAM)
     fam["obs_prefixes"] = obs
+    extra = []
+    if pid == "C10":
+        # leak oracle (harness main.rs: live-chunk counters back to their value before the case) over
+        # StreamReader / StreamChunker / codec histories; their observation streams belong to C06/C08/C01
+        extra = [dict(name="reader", quick=500, thorough=20000, search=2000, obs_prefixes=["~none~"]),
+                 dict(name="hcobs_enc", quick=800, thorough=20000, search=2000, obs_prefixes=["~none~"]),
+                 dict(name="hcobs_dec", quick=500, thorough=10000, search=2000, obs_prefixes=["~none~"])]
     SPECS[pid] = dict(
         title=title, lean_modules=modules, theorems=theorems,
-        families=[fam] + ([dict(_CODECW_FAM, obs_prefixes=obs + ["G"])] if codecw else []), vtags=vtags,
+        families=[fam] + ([dict(_CODECW_FAM, obs_prefixes=obs + ["G"])] if codecw else []) + extra, vtags=vtags,
         technique="Lean 4 proof over a structural model of OwningIovec (invariants by induction over operation histories) + model/implementation correspondence with live-chunk registry hook",
         design_ref="DESIGN.md section 5, " + pid,
         level_text=text, level_note=_IOV_NOTE + partial,
